@@ -11,6 +11,7 @@ import Cirbo.Model.Miter
 import Cirbo.Model.Passes
 import Driver.Gens
 import Driver.SynthDrv
+import Driver.NormDrv
 /-! `cirbo_model`: one JSON request per input line, one JSON response per output line. -/
 open Lean Cirbo Driver
 
@@ -247,6 +248,9 @@ def handle (j : Json) : Except String Json := do
       pure (ofExcept jCircuit (cleanup c heavy))
     | _ => throw "bad mode"
   | "gen" => GenDrv.genOp j
+  | "normalize" => NormDrv.handle op j
+  | "denormalize" => NormDrv.handle op j
+  | "denorm_rows" => NormDrv.handle op j
   | "synth_encode" => SynthDrv.handle op j
   | "synth_decode" => SynthDrv.handle op j
   | "optable_issues" => pure (ok (jStrs opTableIssues))
